@@ -927,21 +927,34 @@ func (b both) Process(ctx context.Context, man gdbi.Manager, in gdbi.InPipe, out
 		// forward the results of both directions while the input is still being
 		// fed: reading them only after the input ends blocks the traversal as
 		// soon as one direction has more results pending than its channels hold
+		// A signal travels through both directions like any traveler and is passed
+		// on once every direction has returned it, so that it cannot overtake the
+		// travelers that entered before it (mark/jump loops rely on that order).
 		wg := &sync.WaitGroup{}
+		sigLock := &sync.Mutex{}
+		sigSeen := map[gdbi.Signal]int{}
 		for i := range procs {
 			wg.Add(1)
 			go func(ch chan gdbi.Traveler) {
 				defer wg.Done()
 				for c := range ch {
+					if c.IsSignal() {
+						sigLock.Lock()
+						sigSeen[c.GetSignal()]++
+						last := sigSeen[c.GetSignal()] == len(procs)
+						if last {
+							delete(sigSeen, c.GetSignal())
+						}
+						sigLock.Unlock()
+						if !last {
+							continue
+						}
+					}
 					out <- c
 				}
 			}(chanOut[i])
 		}
 		for t := range in {
-			if t.IsSignal() {
-				out <- t
-				continue
-			}
 			for _, ch := range chanIn {
 				ch <- t
 			}
